@@ -2,7 +2,7 @@
 import numpy as np
 from hypothesis import strategies as st
 
-from vf.core import Decline, HarnessError, Prop, Violation, case_hash, innermost_funsor_frame
+from vf.core import robust_gen, Decline, HarnessError, Prop, Violation, case_hash, innermost_funsor_frame
 from vf.gen import Opts, SeedSource, gen_expr
 from vf.lang import NotNormalizable, Oracle, OutOfDomain, Undecided, ast_shrinks, close, int_points, npoints, real_points, show, typeof
 
@@ -110,7 +110,7 @@ class C02(Prop):
     cases = {"quick": 1600, "thorough": 60000}
 
     def strategy(self, tier):
-        return st.integers(0, 2**40).map(gen_case)
+        return st.integers(0, 2**40).map(robust_gen(gen_case))
 
     def describe(self, case):
         return f"[{case['family']}/{case['mode']}] {show(case['ast'])}"
